@@ -307,29 +307,29 @@ theorem ctxGenFinish_resOK (cid : CtxId) (x : Ctx) (fid : Nat) (next : Option Ta
   · exact resumeWaiters_resOK _ _ _ h
   · exact resumeWaiters_resOK _ _ _ (storeGenerated_resOK _ _ _ _ h)
 
-theorem runBodyOp_resOK (cid : CtxId) (x : Ctx) (op : BodyOp) (h : ResOK x.res) :
-    ResOK (runBodyOp cid x op).1.res := by
+theorem runBodyOp_resOK (cid : CtxId) (cur : Option CtxId) (x : Ctx) (op : BodyOp) (h : ResOK x.res) :
+    ResOK (runBodyOp cid cur x op).1.res := by
   cases op with
   | add types name v => exact ctxAdd_resOK _ _ _ h
   | addFactory types name fid => rw [runBodyOp, ctxAddFactory_res]; exact h
   | getNowait ty name opt => exact ctxGetNowait_resOK _ _ _ _ h
   | current => exact h
 
-theorem runBody_resOK (cid : CtxId) (x : Ctx) (ops : List BodyOp) (h : ResOK x.res) :
-    ResOK (runBody cid x ops).1.res := by
+theorem runBody_resOK (cid : CtxId) (cur : Option CtxId) (x : Ctx) (ops : List BodyOp) (h : ResOK x.res) :
+    ResOK (runBody cid cur x ops).1.res := by
   induction ops generalizing x with
   | nil => exact h
   | cons op ops ih =>
     rw [runBody]
-    exact ih _ (runBodyOp_resOK cid x op h)
+    exact ih _ (runBodyOp_resOK cid cur x op h)
 
-theorem runTeardown_resOK (cid : CtxId) (be : BlockEnd) (st : List Cb) (x : Ctx) (h : ResOK x.res) :
-    ResOK (runTeardown cid be st x).1.res := by
-  fun_induction runTeardown cid be st x with
+theorem runTeardown_resOK (cid : CtxId) (cur : Option CtxId) (be : BlockEnd) (st : List Cb) (x : Ctx) (h : ResOK x.res) :
+    ResOK (runTeardown cid cur be st x).1.res := by
+  fun_induction runTeardown cid cur be st x with
   | case1 x => exact h
   | case2 stack x id passExc isAsync body regs raises x' bodyOut hb stack' x'' tr excs hr ih =>
     have hx' : ResOK x'.res := by
-      have := runBody_resOK cid x body h
+      have := runBody_resOK cid cur x body h
       rw [hb] at this; exact this
     have ih' := ih hx'
     simp only [stack', List.unattach_reverse, List.unattach_attach] at hr ih'
@@ -444,8 +444,8 @@ theorem WorldOK_step (w : World) (op : Op) (hw : WorldOK w) : WorldOK (step w op
     · rename_i x hx
       split
       · exact hw
-      · have ht := runTeardown_resOK c be (effStack be x.tds) { x with state := .closing, tds := [] } (hw c x hx)
-        generalize runTeardown c be (effStack be x.tds) { x with state := .closing, tds := [] } = r at ht
+      · have ht := runTeardown_resOK c (w.curOf t) be (effStack be x.tds) { x with state := .closing, tds := [] } (hw c x hx)
+        generalize runTeardown c (w.curOf t) be (effStack be x.tds) { x with state := .closing, tds := [] } = r at ht
         obtain ⟨x2, tr, excs⟩ := r
         dsimp only
         apply WorldOK_removeChild
@@ -559,7 +559,7 @@ theorem step_exit_frame (w : World) (t : TaskId) (c' : CtxId) (be : BlockEnd) (c
   · rename_i x hx
     split
     · exact .inl rfl
-    · generalize runTeardown c' be (effStack be x.tds) { x with state := .closing, tds := [] } = r
+    · generalize runTeardown c' (w.curOf t) be (effStack be x.tds) { x with state := .closing, tds := [] } = r
       obtain ⟨x2, tr, excs⟩ := r
       dsimp only
       have h1 : (((w.setCtx c' { x2 with state := .closed }).setCur t (x.token.getD none))).ctx? c
